@@ -217,6 +217,7 @@ func runC18(c *Ctx) {
 	}
 	c.ruleAlias = nil
 	c.c18RunsDoNotOverlap()
+	c.c18PiecesAreTheBytesWritten()
 	c.c18MonitoringOverBeforeTheNextRun()
 	c.c18StopRecheck()
 }
@@ -811,4 +812,115 @@ func (c *Ctx) c18MonitoringOverBeforeTheNextRun() {
 	}
 	c.check(good, "M12", key, c.ipos(lockCall), "after the lock is released Execute waits for the monitoring of the run to be over",
 		"Execute returns while the goroutine monitoring its run may still be waiting for the lock (a Cancel() in the middle of the run sends it into Stop()): the next Execute()/Start() takes the lock first, waits one second in vain for that goroutine, and runs its command under the cancelled context of the previous run — it reports 'cancelled' although nobody interrupted it")
+}
+
+// c18PiecesAreTheBytesWritten (M13): "every line … reaches the logger complete, unmodified". What the stream writer hands to
+// the logger is a piece of what the child wrote: obtained from the chunk by conversion to a string, splitting and slicing
+// only. Anything else on the way — a bufio.Scanner (ScanLines drops a trailing carriage return, and a line that is a lone
+// "\r" altogether), a trim, a replacement, a field split — changes what some children write (CRLF output, progress lines).
+func (c *Ctx) c18PiecesAreTheBytesWritten() {
+	c.rule("M13", "what the stream writer hands to the logger derives from the chunk it was given through conversion, strings.Split / SplitAfter and slicing only: no scanner, trim or replacement on the way (a trailing carriage return is part of the line)", 2)
+	f := c.fnOpt(spPkg, "(*logStreamer).Write")
+	if f == nil || len(f.Params) < 2 {
+		return
+	}
+	c.FuncsSeen[fname(f)] = true
+	chunk := f.Params[1]
+	var impure func(v ssa.Value, depth int, seen map[ssa.Value]bool) ssa.Value
+	impure = func(v ssa.Value, depth int, seen map[ssa.Value]bool) ssa.Value {
+		if v == ssa.Value(chunk) {
+			return nil
+		}
+		if seen[v] || depth > 40 {
+			return nil
+		}
+		seen[v] = true
+		switch x := v.(type) {
+		case *ssa.Convert:
+			return impure(x.X, depth+1, seen)
+		case *ssa.ChangeType:
+			return impure(x.X, depth+1, seen)
+		case *ssa.MakeInterface:
+			return impure(x.X, depth+1, seen)
+		case *ssa.Slice:
+			return impure(x.X, depth+1, seen)
+		case *ssa.Phi:
+			for _, e := range x.Edges {
+				if b := impure(e, depth+1, seen); b != nil {
+					return b
+				}
+			}
+			return nil
+		case *ssa.UnOp:
+			if x.Op == token.MUL {
+				switch a := x.X.(type) {
+				case *ssa.IndexAddr:
+					return impure(a.X, depth+1, seen)
+				case *ssa.FieldAddr:
+					if a.X == ssa.Value(f.Params[0]) {
+						return nil // state the writer carries from one call to the next (a fragment of an unfinished line)
+					}
+				case *ssa.Alloc:
+					for _, st := range storesToDeep(a) {
+						if b := impure(st, depth+1, seen); b != nil {
+							return b
+						}
+					}
+					return nil
+				}
+			}
+		case *ssa.Index:
+			return impure(x.X, depth+1, seen)
+		case *ssa.BinOp:
+			if x.Op == token.ADD { // a fragment kept from the previous chunk, followed by the start of this one
+				if b := impure(x.X, depth+1, seen); b != nil {
+					return b
+				}
+				return impure(x.Y, depth+1, seen)
+			}
+		case *ssa.Const:
+			return nil
+		case *ssa.Extract:
+			return impure(x.Tuple, depth+1, seen)
+		case *ssa.Next:
+			return impure(x.Iter, depth+1, seen)
+		case *ssa.Range:
+			return impure(x.X, depth+1, seen)
+		case *ssa.Call:
+			if calleeFull(&x.Call) == "builtin.append" {
+				for _, a := range x.Call.Args {
+					if b := impure(a, depth+1, seen); b != nil {
+						return b
+					}
+				}
+				return nil
+			}
+			switch calleeFull(&x.Call) {
+			case "strings.Split", "strings.SplitN", "strings.SplitAfter", "strings.SplitAfterN", "bytes.Split", "bytes.SplitAfter", "strings.Cut", "bytes.Cut":
+				return impure(x.Call.Args[0], depth+1, seen)
+			}
+		}
+		return v
+	}
+	n := 0
+	allInstrs(f, func(in ssa.Instruction) {
+		cl, ok := in.(*ssa.Call)
+		if !ok || !cl.Call.IsInvoke() || (cl.Call.Method.Name() != "Log" && cl.Call.Method.Name() != "LogError") {
+			return
+		}
+		n++
+		bad := ""
+		for _, a := range cl.Call.Args {
+			for _, el := range variadicElems(a) {
+				if b := impure(el, 0, map[ssa.Value]bool{}); b != nil {
+					bad = c.pos(b.Pos()) + " (" + b.String() + ")"
+				}
+			}
+		}
+		c.check(bad == "", "M13", fname(f)+"/pieces-unmodified:"+cl.Call.Method.Name(), c.ipos(cl), "the piece logged is cut out of the chunk by conversion, splitting and slicing only",
+			"what is handed to the logger does not come straight out of the chunk written by the child: it passes through "+bad+" — a scanner's ScanLines, a trim or a replacement drops or rewrites bytes (the carriage return of `first\\r\\n`, the whole line `\\r`), so lines do not reach the logger unmodified and Output() does not return all of what was written")
+	})
+	if n == 0 {
+		c.violate("M13", fname(f)+"/pieces-unmodified", c.pos(f.Pos()), "the stream writer no longer hands anything to the loggers")
+	}
 }
